@@ -5,6 +5,7 @@ import (
 	"math/rand"
 	"os"
 	"path/filepath"
+	"strings"
 	"sync"
 	"time"
 )
@@ -81,8 +82,17 @@ func getFilePath(path string, suffix string) string {
 func RLockExists(path string) bool {
 	dir := filepath.Dir(path)
 	basename := filepath.Base(path)
-	match, _ := filepath.Glob(filepath.Join(dir, "."+basename) + ".*" + RLockFileSuffix)
+	match, _ := filepath.Glob(escapeGlobMeta(filepath.Join(dir, "."+basename)) + ".*" + RLockFileSuffix)
 	return match != nil
+}
+
+// escapeGlobMeta makes filepath.Glob take every character of a file path literally.
+func escapeGlobMeta(path string) string {
+	oldnew := []string{"*", "[*]", "?", "[?]", "[", "[[]"}
+	if os.PathSeparator != '\\' {
+		oldnew = append(oldnew, `\`, `\\`)
+	}
+	return strings.NewReplacer(oldnew...).Replace(path)
 }
 
 func LockExists(path string) bool {
